@@ -201,6 +201,7 @@ var segWords = []string{"shops", "pets", "users", "items", "orders", "v", "a-b",
 var varNames = []string{"id", "name", "shop", "pet_id", "when", "n"}
 var methods = []string{"get", "post", "put", "patch", "delete", "get", "post", "head", "options"}
 var queryNames = []string{"page", "limit", "q", "since", "flag", "ratio", "ids", "tags", "sort-by", "filter[x]"}
+
 // header names are deliberately not all in canonical MIME form
 var headerNames = []string{"X-Request-ID", "X-Trace", "x-count", "X-When", "X-Flag", "Accept-Language", "X-RateLimit-Ratio", "ETag-Ish"}
 
@@ -274,6 +275,25 @@ func Generate(seed uint64, i int) (name string, text string, config string) {
 	paths := M{}
 	nOps := 1 + r.IntN(6)
 	seen := map[string]bool{}
+	// shapes that pure chance leaves out of a 30-spec corpus too often are forced into every few specs
+	switch i % 5 {
+	case 0:
+		// two path variables declared in the reverse of their order in the template
+		item := M{"get": g.operation("get", []string{"pet_id", "shop"})}
+		if r.IntN(2) == 0 {
+			item["put"] = g.operation("put", []string{"pet_id", "shop"})
+		}
+		paths["/shops/{shop}/pets/{pet_id}"] = item
+		seen["/shops/{}/pets/{}"] = true
+	case 1:
+		// one path variable declared on the path item, the other on the operation
+		op := g.operation("get", []string{"owner"})
+		paths["/owners/{owner}/cars/{car}"] = M{
+			"parameters": []any{M{"name": "car", "in": "path", "required": true, "schema": M{"type": "string"}}},
+			"get":        op,
+		}
+		seen["/owners/{}/cars/{}"] = true
+	}
 	for len(paths) < nOps {
 		depth := 1 + r.IntN(3)
 		var segs []string
